@@ -182,8 +182,8 @@ impl Property for Lru {
         let mut dead: [Option<(String, String)>; 2] = [None, None];
         let mut overwrites = 0u64;
         let mut over_cap_noevict = 0u64;
-        // Σ sizes handed to insert_no_evict since the last evicting insert: the only admissible
-        // excess over the capacity.
+        // Σ sizes ever handed to insert_no_evict: an upper bound of the only admissible excess over
+        // the capacity.
         let mut slack: usize = 0;
         if lru.approximate_size() != 0 {
             o.fail("lru-size-mismatch", "a new cache does not have size 0");
@@ -194,7 +194,8 @@ impl Property for Lru {
             let obs = match *op {
                 LruOp::Insert { k, size } => {
                     lru.insert(k, V { tag: i as u32, size });
-                    slack = 0;
+                    // (not reset: the property lets entries inserted with eviction disabled stay
+                    // resident; the exact eviction behaviour is the models' business)
                     Obs::Unit
                 }
                 LruOp::InsertNoEvict { k, size } => {
@@ -214,7 +215,7 @@ impl Property for Lru {
             if size > cap.saturating_add(slack) {
                 o.fail(
                     "lru-over-capacity",
-                    format!("after op #{i} {op:?}: accounted size {size} exceeds capacity {cap} by more than the {slack} inserted with eviction disabled since the last evicting insert"),
+                    format!("after op #{i} {op:?}: accounted size {size} exceeds capacity {cap} by more than the {slack} bytes ever inserted with eviction disabled"),
                 );
                 return o;
             }
